@@ -165,6 +165,33 @@ theorem copyFwd_left (b nb : Nat) : ∀ (n : Nat) (h : Heap) (s d : Nat) (c : Na
     simp only [hne, if_false]
     congr 1; omega
 
+/-- copy inside one block to a disjoint range further back (a range of the vector itself inserted behind it) -/
+theorem copyFwd_disjoint (b nb : Nat) : ∀ (n : Nat) (h : Heap) (s d : Nat) (c : Nat → Option Int),
+    h.slot b = some ⟨nb, c⟩ → s + n ≤ d → d + n ≤ nb →
+    (∀ k, k < n → (c (s + k)).isSome) →
+    copyFwd h b s b d n = .ok (h.set b (some ⟨nb, blit c d n (fun k => c (s + k))⟩))
+  | 0, h, s, d, c, hs, _, _, _ => by
+    rw [blit_zero, Heap.set_self _ _ _ hs]; rfl
+  | n + 1, h, s, d, c, hs, hsd, hdn, hi => by
+    obtain ⟨x, hx⟩ := Option.isSome_iff_exists.mp (hi 0 (by omega))
+    simp only [Nat.add_zero] at hx
+    have hr := Heap.read_ok hs (show s < nb by omega) hx
+    have hw := Heap.write_ok x hs (show d < nb by omega)
+    simp only [copyFwd, hr, hw, ok_bind]
+    rw [copyFwd_disjoint b nb n _ (s + 1) (d + 1) _ (Heap.set_slot_self _ _ _) (by omega) (by omega)
+      (fun k hk => by
+        have := hi (k + 1) (by omega)
+        have hne : s + 1 + k ≠ d := by omega
+        simp only [hne, if_false]
+        rwa [show s + (k + 1) = s + 1 + k by omega] at this), Heap.set_set]
+    rw [← blit_step c d n (fun k => c (s + k))]
+    simp only [Nat.add_zero, hx]
+    congr 4
+    apply blit_congr; intro k _
+    have hne : s + 1 + k ≠ d := by omega
+    simp only [hne, if_false]
+    congr 1; omega
+
 /-- copy inside one block towards the back (insert in place), last element first -/
 theorem copyBwd_right (b nb : Nat) : ∀ (n : Nat) (h : Heap) (s d : Nat) (c : Nat → Option Int),
     h.slot b = some ⟨nb, c⟩ → s ≤ d → d + n ≤ nb →
